@@ -23,6 +23,7 @@ SOURCES = [
     {"kind": "seed", "seed": "000102030405060708090a0b0c0d0e0f" * 4},
     {"kind": "xkey", "k": 0x00000000000000000000000000000000F1E2D3C4B5A69788796A5B4C3D2E1F00, "chain": "00" * 32},
     {"kind": "xkey", "k": hd.N - 1, "chain": "ff" * 32},
+    {"kind": "xkey", "k": 0x5D2A1C3B4E5F60718293A4B5C6D7E8F900112233445566778899AABBCCDDEEFF, "chain": "3c" * 32, "depth": 3, "index": hd.H + 7, "pfp": "0badcafe"},
 ]
 NETS = [False, True]
 INTERVALS = [[0, 2], [0, 0], [0, 1], [5, 6], [0, 3], [7, 7], [3, 1], [H - 2, H], [H - 1, H]]
@@ -42,7 +43,8 @@ def build(src, testnet):
     if src["kind"] == "seed":
         w = PaperWallet.from_bip39_seed_hex(src["seed"], testnet)
         return w, hd.master(bytes.fromhex(src["seed"])), None, None
-    node = hd.node_from_priv(src["k"], bytes.fromhex(src["chain"]))
+    node = hd.node_from_priv(src["k"], bytes.fromhex(src["chain"]), src.get("depth", 0), src.get("index", 0),
+                             bytes.fromhex(src["pfp"]) if src.get("pfp") else b"\x00" * 4)
     w = PaperWallet.from_extended_key(hd.xprv(node, hd.version_for("prv", testnet, 44)))
     return w, node, None, None
 
